@@ -84,6 +84,11 @@ class C13(Prop):
             first = [(bad, True)] + [(n, r.random() < 0.7) for n in NAMES if n != bad and r.random() < 0.5]
             chs = [{"pathset": wp(first)}, dict({"pathset": wp(rand_ps())} if r.random() < 0.7 else {"watcher": r.choice(["poll", "native", "poll2"])}, on_error=0)]
             cases.append({"changes": chs, "fail_watch": [bad], "fail_unwatch": [], "det": False})
+        # the same path set configured again: every configured path that is not registered is attempted again (and reported again)
+        for i in range(4 if tier == "quick" else 24):
+            bad = NAMES[i % 3]
+            ps = [(bad, True)] + [(n, r.random() < 0.7) for n in NAMES if n != bad and r.random() < 0.6]
+            cases.append({"changes": [{"pathset": wp(ps)}, {"pathset": wp(ps)}, {"pathset": wp(ps)}][:2 + i % 2], "fail_watch": [bad], "fail_unwatch": [], "det": True, "repeat": True})
         # more failing registrations in one apply pass than the error queue has room for: each is still reported (the worker waits for room)
         for i in range(6 if tier == "quick" else 40):
             ps = [(n, r.random() < 0.7) for n in NAMES]
@@ -244,6 +249,11 @@ class C13(Prop):
                     c.validated += 1
                 else:
                     c.disagreements.append({"case": case, "impl": {"calls": impl_calls, "final": got, "errors": nerr}, "model": m, "what": "fs worker calls / registration"})
+                if case.get("repeat"):
+                    attempts = sum(1 for x in o["calls"] if x.startswith("watch(") and x.split(",")[1] in case["fail_watch"])
+                    if attempts != len(case["changes"]):
+                        c.failing.append({"case": case, "impl": {"attempts_on_the_failing_path": attempts, "calls": o["calls"]}, "expected": len(case["changes"]),
+                                          "clause": "C13_converges: configuring the same path set again did not retry the path that is not registered"})
                 nfail = sum(1 for x in o["calls"] if x.startswith("watch(") and x.split(",")[1] in case["fail_watch"]) + \
                     sum(1 for x in o["calls"] if x.startswith("unwatch(") and x.split(",")[1].rstrip(")") in case["fail_unwatch"])
                 if nerr != nfail:
